@@ -197,9 +197,98 @@ def oracle(case) -> core.CaseResult:
     return res
 
 
+
+# ---------------------------------------------------------------------------
+# warm-started bases: the window begins at the last record of the restart file, which may itself come from a
+# warm-started run (a chain of restarts); the same faults in time must be refused there too
+# ---------------------------------------------------------------------------
+
+WARM_FAULTS = ["none", "stop_wrong_side", "forcing_ends_early", "forcing_starts_late"]
+WARM_BASES = [dict(chain=c, keep_start=k, reference=r, reverse=False)
+              for c, k, r in itertools.product([1, 2], [True, False], [False, True])]
+
+
+def build_warm(d, base, fault, param):
+    rng = np.random.default_rng(param)
+    k = int(rng.integers(1, 4))
+    G = roms.make_grid(8, 9, N=2, hval=40.0, dx=100.0)
+    T0 = scen.T0 + scen.S(3600)
+    leg = 6  # steps per leg
+    nlegs = base["chain"] + 1
+    ft = [T0 + scen.S(s * DT) for s in range(-2, leg * (nlegs + 1) + 3, 2)]
+    U, V = scen.vel_arrays(G, len(ft), {"kind": "const", "u": 0.03, "v": 0.01})
+    fname, files = scen.write_forcing(d, G, ft, U, V, partition=[len(ft)])
+    rows = [[e2e.iso(T0 + scen.S(s * DT)), 4.2, 3.6, 2.0] for s in (0, 2, 9, 14, 19)]
+    e2e.write_release(d / "rel.rls", rows, ["release_time", "X", "Y", "Z"])
+    ref = T0 - scen.S(86400) if base["reference"] else None
+    restart_file = None
+    t_restart = None
+    for n in range(nlegs):
+        last = n == nlegs - 1
+        start = T0
+        stop = (T0 if t_restart is None else t_restart) + scen.S(leg * DT)
+        conf = e2e.base_conf(d, start, stop, DT, fname, d / "rel.rls", out=f"leg{n}.nc", period=2 * DT, reference=ref)
+        conf["grid"]["filename"] = str(files[0])
+        if restart_file is not None:
+            conf["warm_start"] = {"filename": str(restart_file), "variables": []}
+            if not base["keep_start"]:
+                del conf["time"]["start"]
+        if last:
+            if fault == "stop_wrong_side":
+                conf["time"]["stop"] = e2e.iso(t_restart - scen.S(k * DT))
+            if fault == "forcing_ends_early":
+                conf["time"]["stop"] = e2e.iso(ft[-1] + scen.S(k * DT))
+            if fault == "forcing_starts_late":
+                late = [t for t in ft if t > t_restart + scen.S((k - 1) * DT)]
+                U2, V2 = scen.vel_arrays(G, len(late), {"kind": "const", "u": 0.03, "v": 0.01})
+                f2, _ = scen.write_forcing(d, G, late, U2, V2, partition=[len(late)], stem="lateforcing")
+                conf["forcing"]["filename"] = f2
+        path = d / f"leg{n}.yaml"
+        with open(path, "w", encoding="utf-8") as f:
+            yaml.safe_dump(conf, f, sort_keys=False)
+        if last:
+            return path, f"leg{n}.nc", t_restart
+        r = e2e.run_main(path)
+        if r["status"] != "ok":
+            raise core.HarnessError(f"leg {n} of a valid restart chain failed: {r['exc']}\n{(r['tb'] or '')[-400:]}")
+        restart_file = d / f"leg{n}.nc"
+        t_restart = e2e.read_sparse(restart_file)["times"][-1]
+    raise AssertionError
+
+
+def warm_oracle(case) -> core.CaseResult:
+    res = core.CaseResult()
+    base, fault, param = case["base"], case["fault"], case["param"]
+    res.cls(f"warm_chain{base['chain']}:{fault}")
+    with e2e.workdir() as d:
+        path, outname, t_restart = build_warm(d, base, fault, param)
+        r = e2e.run_main(path)
+        nrec = 0
+        if (d / outname).exists():
+            try:
+                nrec = len(e2e.read_sparse(d / outname)["times"])
+            except Exception:  # noqa: BLE001
+                nrec = 0
+    res.nontrivial = True
+    if fault == "none":
+        res.check(r["status"] == "ok" and r["updates"] == 6 and nrec >= 3, "warm_base_not_clean",
+                  f"unfaulted restart chain {base} does not run clean: {r['exc']} updates={r['updates']} records={nrec}\n"
+                  f"{(r['tb'] or '')[-400:]}")
+        return res
+    res.check(r["status"] != "ok", "not_refused_warm",
+              f"fault '{fault}' in restart chain {base} (restart time {t_restart}): the run completed normally "
+              f"({r['updates']} steps, {nrec} records)")
+    res.check(r["updates"] == 0, "simulation_started_warm",
+              f"fault '{fault}' in restart chain {base}: {r['updates']} model steps were executed ({r['exc']})")
+    res.check(nrec == 0, "records_written_warm",
+              f"fault '{fault}' in restart chain {base}: {nrec} output records exist after the refused run ({r['exc']})")
+    return res
+
+
 def shard(cases, known):
     stt = core.Stats()
-    core.enumerate_cases("fault", cases, oracle, stt, known, stop_after=40)
+    core.enumerate_cases("fault", [c for c in cases if "chain" not in c["base"]], oracle, stt, known, stop_after=40)
+    core.enumerate_cases("warm", [c for c in cases if "chain" in c["base"]], warm_oracle, stt, known, stop_after=40)
     return stt
 
 
@@ -210,6 +299,10 @@ def run(ctx):
         for f in FAULTS:
             for p in range(draws):
                 cases.append(dict(base=b, fault=f, param=core.subseed(ctx.seed, f, p) % 10**6))
+    for b in WARM_BASES:
+        for f in WARM_FAULTS:
+            for p in range(1 if f == "none" else draws):
+                cases.append(dict(base=b, fault=f, param=core.subseed(ctx.seed, "w" + f, p) % 10**6))
     k = core.NWORKERS * 3
     chunks = [cases[i::k] for i in range(k)]
     stats = core.Stats()
@@ -219,7 +312,10 @@ def run(ctx):
         rule=(f"every fault kind ({len(FAULTS)}) injected into every base scenario (16 = forward/reversed x single/"
               f"multi-file forcing x discrete/continuous x grid section given/omitted), {draws} parameter draw(s) each "
               "(how far out of range, which file, which spelling); the unfaulted bases must run clean; "
-              "non-trivial = a faulted case; distinct = distinct (base, fault, parameter)"),
+              "non-trivial = a faulted case; distinct = distinct (base, fault, parameter); part 'warm': the faults in "
+              f"time ({len(WARM_FAULTS) - 1}) injected into {len(WARM_BASES)} warm-started bases (restart from a cold run's "
+              "file or from the file of a run that was itself warm-started, start key kept or dropped, reference "
+              "time configured or not)"),
         exhaustive=True,
         extra={"faults": FAULTS, "bases": len(BASES)},
         assumptions=["'stops with an error' = SystemExit or any exception out of ladim.main.main",
@@ -228,4 +324,4 @@ def run(ctx):
 
 
 def replay(part, case):
-    return oracle(case)
+    return warm_oracle(case) if part == "warm" else oracle(case)
